@@ -2831,6 +2831,8 @@ func (r *repoT) delete() error {
 func (r *repoT) initMutationID(store storage.KeyValueDB, mutationIDStart uint64, readOnly bool) error {
 	var ctx storage.MetadataContext
 	tk := storage.NewTKey(mutidKey, r.id.Bytes())
+	r.mutMu.Lock()
+	defer r.mutMu.Unlock()
 	mutdata, err := store.Get(ctx, tk)
 	if err != nil {
 		return err
